@@ -74,7 +74,38 @@ def finalState (P : Proto) : St → List Op → St
 def hasFault (opsS : String) : Bool := (opsS.splitOn ";").any (·.startsWith "fail ")
 def noFaultOps (opsS : String) : List String := (opsS.splitOn ";").filter fun o => o != "" && !o.startsWith "fail "
 
+/-! ## the connection protocols (DID Exchange, legacy Connection) between two real agents (harness c09x.go): no engine
+    model, the oracle judges the announced sequences and the persisted states against the published graphs -/
+
+def isConnProto (input : String) : Bool := input.startsWith "dx|" || input.startsWith "lc|"
+
+def connGraph (input : String) : Graph := if input.startsWith "dx|" then didexchange else legacyconnection
+
+/-- the persisted state is the last announced one, or one edge ahead of it (the state is persisted before its action
+    runs; when the action fails the state is never announced) -/
+def persistedOk (g : Graph) (tr : List String) (p : String) : Bool :=
+  p == "-" || tr.getLast? == some p || edge g (tr.getLast?.getD g.start) p
+
+def oracleConn (input implOut : String) : String :=
+  let g := connGraph input
+  let tail := (implOut.splitOn "|").getLast?.getD ""
+  match tail.splitOn " " with
+  | [i, e, "rec", ri, re] =>
+    let tr (s : String) : List String :=
+      let body := (s.drop 2).toString
+      if body == "-" then [] else body.splitOn ","
+    let st (s : String) : String := (s.drop 2).toString
+    let ti := tr i
+    let te := tr e
+    if !validTrace g ti then "PATH-VIOLATION inviter:" ++ ",".intercalate ti
+    else if !validTrace g te then "PATH-VIOLATION invitee:" ++ ",".intercalate te
+    else if !persistedOk g ti (st ri) then "PERSISTED-STATE-OFF-THE-PATH inviter=" ++ st ri
+    else if !persistedOk g te (st re) then "PERSISTED-STATE-OFF-THE-PATH invitee=" ++ st re
+    else implOut
+  | _ => if implOut.startsWith "setup-error" then implOut else "unparsable: " ++ tail
+
 def handle (input : String) : String :=
+  if isConnProto input then "=" else
   match input.splitOn "|" with
   | [proto, opsS] =>
     if hasFault opsS then "=" else
@@ -126,6 +157,7 @@ def appendTrace (acc : List (String × List String)) (t : String) (ss : List Str
 /-- the property on an observed run: every thread's announced states form a path of the published graph from `start`;
     a rejected message announces nothing; the persisted state is the last announced one -/
 def oracle (input implOut : String) : String :=
+  if isConnProto input then oracleConn input implOut else
   match input.splitOn "|" with
   | [proto, _] =>
     match setup proto with
@@ -176,6 +208,7 @@ def overlapsObserved : List String → List String → List String → Bool
   | _, _, _ => false
 
 def tags (input : String) (impl : String := "") : String :=
+  if isConnProto input then "" else
   match input.splitOn "|" with
   | [proto, opsS] =>
     match setup proto with
